@@ -297,6 +297,77 @@ def bfs_case(item):
 
 
 # ---------------------------------------------------------------- driver
+TAIL_TOTALS = [1, 100, 3000, 2 ** 14 + 7]
+TAIL_KS = [1, 7, 2048, 2 ** 14]
+
+
+def tail_case(item):
+    """Everything written before an orderly close is delivered before the
+    end-of-data indication, whatever (max, min) the reader uses - including
+    min larger than what is left when close_notify arrives, and an abrupt
+    close with ignoreAbruptClose."""
+    (v, sid, etm, seed) = item
+    info = S.ALL_INFOS[sid]
+    name = "%s/%s/etm=%s" % (S.VNAME[v], info.name, etm)
+    rec = {"name": name, "fails": [], "n": 0, "sigs": set()}
+    sc0 = S.scen_for_suite(v, sid, etm)
+    pair0, out = established(sc0, seed)
+    if pair0 is None:
+        rec["fails"].append({"err": "handshake failed %r" % (out,)})
+        return rec
+    pair0.drain()
+    for writer in ("C", "S"):
+        reader = "S" if writer == "C" else "C"
+        d = DIR_OF_WRITER[writer]
+        for total in TAIL_TOTALS:
+            data = stream(d, 0, total)
+            pair_w = pair0.clone()
+            o = pair_w.write(writer, data)
+            if o.status != "ok":
+                rec["fails"].append({"err": "write failed %r" % (o,)})
+                continue
+            for ending in ("close_notify", "abrupt-ignored"):
+                pair_e = pair_w.clone()
+                if ending == "close_notify":
+                    pair_e.close(writer)
+                else:
+                    pair_e.ep(reader).ignoreAbruptClose = True
+                    (pair_e.world.csock if writer == "C" else
+                     pair_e.world.ssock).close()
+                for k in TAIL_KS + [total + 1, 2 * total]:
+                    if total // k > 500:
+                        continue    # (cost; small totals cover k=1, 7)
+                    pair = pair_e.clone()
+                    got = b""
+                    status = None
+                    for _ in range(total // min(k, total) + 8):
+                        r = pair.read(reader, k, k)
+                        if r.status != "ok":
+                            status = r.sig()[:3]
+                            break
+                        if not r.value:
+                            status = ("eof",)
+                            break
+                        got += bytes(r.value)
+                    rec["n"] += 1
+                    rec["sigs"].add((ending, status, got == data))
+                    if got != data:
+                        rec["fails"].append({
+                            "err": "%s wrote %d bytes and closed (%s); "
+                                   "reader with read(max=%d, min=%d) got %d "
+                                   "bytes before %r" % (
+                                       writer, total, ending, k, k, len(got),
+                                       status),
+                            "total": total, "k": k, "ending": ending})
+                    elif status != ("eof",):
+                        rec["fails"].append({
+                            "err": "end of data reported as %r after %s" % (
+                                status, ending),
+                            "total": total, "k": k, "ending": ending})
+    rec["sigs"] = sorted(rec["sigs"], key=repr)
+    return rec
+
+
 def all_triples():
     out = []
     for (v, sid) in S.suite_version_pairs():
@@ -425,7 +496,23 @@ def run(res, tier, seed):
     res.coverage["traces_validated_against_impl"] = tr
     res.section("bfs", connections=len(bitems), depth=depth, states=st,
                 transitions=tr, leaves_witnessed=lw)
-    res.coverage["distinct_nontrivial"] = len(items) + st
+    # (c) tail before close
+    titems = [(v, sid, etm, seed) for (v, sid, etm) in reps.values()]
+    nt = 0
+    for rec in pmap(tail_case, titems, chunksize=1):
+        nt += rec["n"]
+        res.count(rec["n"])
+        for sg in rec["sigs"]:
+            res.outcome(("tail",) + tuple(sg))
+        for f in rec["fails"][:20]:
+            res.violation({"part": "tail", "name": rec["name"],
+                           "err": f["err"][:40], "ending": f.get("ending")},
+                          f, {"part": "tail", "name": rec["name"],
+                              "fail": f})
+    res.section("tail_before_close", connections=len(titems), reads=nt,
+                totals=TAIL_TOTALS, read_sizes=TAIL_KS + ["total+1",
+                                                          "2*total"])
+    res.coverage["distinct_nontrivial"] = len(items) + st + nt
     res.assumptions += [
         "payload bytes come from one counter stream per direction; lengths, "
         "orders and configurations are what is exhausted",
